@@ -3,6 +3,8 @@
 //!                                        result of the same call made alone (its *_with_provider twin, fresh provider)
 //!   w20_fail <seed> <kind>               a failing call (unknown zone / out-of-range / panic while holding the provider
 //!                                        lock, injected through the verif_hooks feature), then ordinary calls
+//!   w20_many <seed> <n>                  n distinct zones go through the shared provider (from several threads), then
+//!                                        each is queried again: every answer must be the one a fresh provider gives
 //! Outcome `ok same` / `ok differ …`; a deadlock shows as `timeout` (the suite runs under the watchdog).
 use crate::common::*;
 use std::sync::{Arc, Barrier};
@@ -21,6 +23,9 @@ pub fn generate(rng: &mut Rng, thorough: bool) -> Vec<String> {
     let n = if thorough { 300 } else { 40 };
     for _ in 0..n {
         v.push(format!("w20_conc {} {} {}", rng.next() % 1_000_000, *rng.pick(&[2u32, 4, 8, 16]), *rng.pick(&[5u32, 20, 60])));
+    }
+    for _ in 0..(if thorough { 10 } else { 3 }) {
+        v.push(format!("w20_many {} {}", rng.next() % 1_000_000, *rng.pick(&[40u32, 70, 100, 140])));
     }
     for k in 0..(if thorough { 60 } else { 12 }) {
         v.push(format!("w20_fail {} {}", rng.next() % 1_000_000, ["unknown-zone", "out-of-range", "panic-holding-lock"][k % 3]));
@@ -77,6 +82,53 @@ pub fn eval(t: &[&str]) -> Option<String> {
                         }
                     }
                     Err(_) => bad = bad.or(Some(format!("thread {k} panicked"))),
+                }
+            }
+            Some(match bad { None => "ok same".into(), Some(b) => format!("ok differ {b}") })
+        }
+        "w20_many" => {
+            let mut rng = Rng::new(i(t[1]) as u64);
+            let all = super::c03::zone_ids();
+            let n = (i(t[2]) as usize).min(all.len());
+            let mut names: Vec<String> = Vec::new();
+            while names.len() < n {
+                let c = rng.pick(&all).clone();
+                if !names.contains(&c) { names.push(c); }
+            }
+            let names = Arc::new(names);
+            let ns_of = |k: usize| (k as i128 * 41_000_000 - 900_000_000) * 1_000_000_000;
+            let shared = |z: &str, ns: i128| -> String {
+                match TimeZone::try_from_str(z).and_then(|tz| ZonedDateTime::try_new(ns, Calendar::default(), tz)) {
+                    Ok(zdt) => match zdt.offset() { Ok(s) => s, Err(e) => format!("err {}", err_kind(&e)) },
+                    Err(e) => format!("err {}", err_kind(&e)),
+                }
+            };
+            let alone = |z: &str, ns: i128| -> String {
+                let p = FsTzdbProvider::default();
+                match TimeZone::try_from_str(z).and_then(|tz| ZonedDateTime::try_new(ns, Calendar::default(), tz)) {
+                    Ok(zdt) => match zdt.offset_with_provider(&p) { Ok(s) => s, Err(e) => format!("err {}", err_kind(&e)) },
+                    Err(e) => format!("err {}", err_kind(&e)),
+                }
+            };
+            // first pass from four threads at once
+            let handles: Vec<_> = (0..4usize)
+                .map(|th| {
+                    let names = names.clone();
+                    std::thread::spawn(move || {
+                        for (k, z) in names.iter().enumerate() {
+                            if k % 4 == th {
+                                let _ = match TimeZone::try_from_str(z).and_then(|tz| ZonedDateTime::try_new(0, Calendar::default(), tz)) { Ok(zdt) => zdt.offset().ok(), Err(_) => None };
+                            }
+                        }
+                    })
+                })
+                .collect();
+            for h in handles { let _ = h.join(); }
+            let mut bad = None;
+            for (k, z) in names.iter().enumerate() {
+                let (a, b) = (shared(z, ns_of(k)), alone(z, ns_of(k)));
+                if a != b && bad.is_none() {
+                    bad = Some(format!("{z}: {a} | {b}"));
                 }
             }
             Some(match bad { None => "ok same".into(), Some(b) => format!("ok differ {b}") })
